@@ -1,4 +1,5 @@
 import Mathlib.Data.Int.ModEq
+import Mathlib.Data.Nat.Prime.Basic
 import Mathlib.Tactic
 
 /-!
@@ -136,3 +137,286 @@ theorem fermat_inverse (q : ℕ) (hq : q.Prime) (b : ℤ) (hb : IsCoprime b (q :
     rw [this, pow_succ]; ring
   rw [e]
   exact Int.ModEq.pow_card_sub_one_eq_one hq hb
+
+/-! ### The discrete logarithm of a Galois element (property C11)
+
+`SolveDiscreteLogGaloisElement` recovers k from g = 5^k mod 2^(m+3) bit by bit: with x = 2^i a
+divisor of 2^m and c = 2^m / x, the running value is (k mod c) * x and the comparison
+5^kuint = g^x decides bit log2(c) of k.  `dlog_step_cases` is one iteration, `dlog_unique` says
+the result is the only logarithm in [0, 2^(m+1)); `and_mask_dvd`, `or_add_pow2`, `cong_dvd` are the
+bit-level facts `ModExpPow2` and the `|=` of the loop rely on. -/
+
+/-- 5^(2^m) = 1 + 2^(m+2) * odd -/
+theorem five_pow_two_pow_exact (m : ℕ) :
+    ∃ u : ℤ, u % 2 = 1 ∧ (5 : ℤ) ^ (2 ^ m) = 1 + 2 ^ (m + 2) * u := by
+  induction m with
+  | zero => exact ⟨1, by norm_num, by norm_num⟩
+  | succ m ih =>
+    obtain ⟨u, hu, e⟩ := ih
+    refine ⟨u + 2 * (2 ^ m * u ^ 2), by omega, ?_⟩
+    have s : (5 : ℤ) ^ (2 ^ (m + 1)) = (5 ^ (2 ^ m)) ^ 2 := by
+      rw [← pow_mul, pow_succ]
+    rw [s, e]
+    ring
+
+/-- 5^(j*2^m) ≡ 1 + j*2^(m+2)  (mod 2^(m+3)) -/
+theorem five_pow_mul_two_pow (m j : ℕ) :
+    (5 : ℤ) ^ (j * 2 ^ m) ≡ 1 + (j : ℤ) * 2 ^ (m + 2) [ZMOD 2 ^ (m + 3)] := by
+  obtain ⟨u, hu, e⟩ := five_pow_two_pow_exact m
+  induction j with
+  | zero => simp
+  | succ j ih =>
+    have s : (5 : ℤ) ^ ((j + 1) * 2 ^ m) = 5 ^ (j * 2 ^ m) * 5 ^ (2 ^ m) := by
+      rw [← pow_add]; congr 1; ring
+    rw [s, e]
+    have h1 := Int.ModEq.mul_right (1 + 2 ^ (m + 2) * u) ih
+    refine h1.trans ?_
+    apply Int.modEq_iff_dvd.mpr
+    obtain ⟨v, hv⟩ : ∃ v, u = 2 * v + 1 := ⟨u / 2, by omega⟩
+    refine ⟨-(v + (j : ℤ) * 2 ^ (m + 1) * u), ?_⟩
+    subst hv
+    push_cast
+    ring
+
+theorem five_pow_mul_two_pow_eq_one (m j : ℕ) :
+    (5 : ℤ) ^ (j * 2 ^ m) ≡ 1 [ZMOD 2 ^ (m + 3)] ↔ j % 2 = 0 := by
+  have h := five_pow_mul_two_pow m j
+  constructor
+  · intro h1
+    have h2 := (h.symm.trans h1)
+    have h3 := Int.modEq_iff_dvd.mp h2
+    -- 2^(m+3) ∣ 1 - (1 + j*2^(m+2))
+    obtain ⟨t, ht⟩ := h3
+    have : (j : ℤ) * 2 ^ (m + 2) = 2 ^ (m + 2) * (2 * (-t)) := by
+      have : (2 : ℤ) ^ (m + 3) = 2 ^ (m + 2) * 2 := by ring
+      rw [this] at ht
+      linarith
+    have hpos : (2 : ℤ) ^ (m + 2) ≠ 0 := by positivity
+    have : (j : ℤ) = 2 * (-t) := by
+      have h' : 2 ^ (m + 2) * (j : ℤ) = 2 ^ (m + 2) * (2 * (-t)) := by linarith
+      exact mul_left_cancel₀ hpos h'
+    omega
+  · intro hj
+    refine h.trans ?_
+    apply Int.modEq_iff_dvd.mpr
+    obtain ⟨v, hv⟩ : ∃ v, j = 2 * v := ⟨j / 2, by omega⟩
+    refine ⟨-(v : ℤ), ?_⟩
+    subst hv
+    push_cast
+    ring
+
+/-- the discrete logarithm of a power of 5 modulo 2^(m+3) is unique modulo 2^(m+1) -/
+theorem five_pow_cancel (m a : ℕ) (T : ℤ) :
+    (5 : ℤ) ^ a ≡ 5 ^ a * T [ZMOD 2 ^ (m + 3)] ↔ T ≡ 1 [ZMOD 2 ^ (m + 3)] := by
+  constructor
+  · intro h
+    have hd := Int.modEq_iff_dvd.mp h
+    have e : (5 : ℤ) ^ a * T - 5 ^ a = 5 ^ a * (T - 1) := by ring
+    rw [e] at hd
+    have cop : IsCoprime ((2 : ℤ) ^ (m + 3)) ((5 : ℤ) ^ a) := by
+      apply IsCoprime.pow
+      exact ⟨-2, 1, by norm_num⟩
+    have := cop.dvd_of_dvd_mul_left hd
+    exact (Int.modEq_iff_dvd.mpr this).symm
+  · intro h
+    have := Int.ModEq.mul_left ((5 : ℤ) ^ a) h
+    simpa using this.symm
+
+/-- one step of the bit-by-bit (Pohlig-Hellman) logarithm of `SolveDiscreteLogGaloisElement` -/
+theorem dlog_step (m k x : ℕ) (g r1 r2 : ℤ) (hx0 : 0 < x) (hdiv : 2 ^ m % x = 0)
+    (hk : k < 2 ^ (m + 1)) (hg : g ≡ 5 ^ k [ZMOD 2 ^ (m + 3)])
+    (h1 : r1 ≡ 5 ^ ((k % (2 ^ m / x)) * x) [ZMOD 2 ^ (m + 3)]) (h1a : 0 ≤ r1) (h1b : r1 < 2 ^ (m + 3))
+    (h2 : r2 ≡ g ^ x [ZMOD 2 ^ (m + 3)]) (h2a : 0 ≤ r2) (h2b : r2 < 2 ^ (m + 3)) :
+    (k % (2 ^ m / x)) * x < 2 ^ m ∧
+    (r1 = r2 ↔ (k / (2 ^ m / x)) % 2 = 0) ∧
+    (x = 1 → (k % (2 ^ m / x)) * x + ((k / (2 ^ m / x)) % 2) * 2 ^ m = k) ∧
+    (1 < x → x % 2 = 0 ∧ 2 ^ m % (x / 2) = 0 ∧
+      ((k % (2 ^ m / x)) * x + ((k / (2 ^ m / x)) % 2) * 2 ^ m) / 2
+        = (k % (2 ^ m / (x / 2))) * (x / 2)) := by
+  have hdvd : x ∣ 2 ^ m := Nat.dvd_of_mod_eq_zero hdiv
+  obtain ⟨i, hi, rfl⟩ := (Nat.dvd_prime_pow Nat.prime_two).1 hdvd
+  have hc : 2 ^ m / 2 ^ i = 2 ^ (m - i) := Nat.pow_div hi (by norm_num)
+  rw [hc] at h1 ⊢
+  set c := 2 ^ (m - i) with hcdef
+  have hcpos : 0 < c := by positivity
+  have hcx : c * 2 ^ i = 2 ^ m := by
+    rw [hcdef, ← pow_add]; congr 1; omega
+  have hku : (k % c) * 2 ^ i < 2 ^ m := by
+    rw [← hcx]
+    exact Nat.mul_lt_mul_of_pos_right (Nat.mod_lt _ hcpos) (by positivity)
+  refine ⟨hku, ?_, ?_, ?_⟩
+  · -- the comparison decides the next bit
+    have hkx : k * 2 ^ i = (k % c) * 2 ^ i + (k / c) * 2 ^ m := by
+      have := Nat.mod_add_div k c
+      calc k * 2 ^ i = (k % c + c * (k / c)) * 2 ^ i := by rw [this]
+        _ = (k % c) * 2 ^ i + (k / c) * (c * 2 ^ i) := by ring
+        _ = _ := by rw [hcx]
+    have hgx : g ^ (2 ^ i) ≡ 5 ^ ((k % c) * 2 ^ i) * 5 ^ ((k / c) * 2 ^ m) [ZMOD 2 ^ (m + 3)] := by
+      have e : (5 : ℤ) ^ (k * 2 ^ i) = 5 ^ ((k % c) * 2 ^ i) * 5 ^ ((k / c) * 2 ^ m) := by
+        rw [hkx, pow_add]
+      have := hg.pow (2 ^ i)
+      rw [← pow_mul, e] at this
+      exact this
+    have key := five_pow_cancel m ((k % c) * 2 ^ i) ((5 : ℤ) ^ ((k / c) * 2 ^ m))
+    have bit := five_pow_mul_two_pow_eq_one m (k / c)
+    constructor
+    · intro e
+      have : (5 : ℤ) ^ ((k % c) * 2 ^ i) ≡ 5 ^ ((k % c) * 2 ^ i) * 5 ^ ((k / c) * 2 ^ m) [ZMOD 2 ^ (m + 3)] :=
+        h1.symm.trans ((e ▸ h2).trans hgx)
+      exact bit.mp (key.mp this)
+    · intro hb
+      have := key.mpr (bit.mpr hb)
+      have e : r1 ≡ r2 [ZMOD 2 ^ (m + 3)] := h1.trans (this.trans (hgx.symm.trans h2.symm))
+      have := Int.ModEq.eq e
+      rw [Int.emod_eq_of_lt h1a h1b, Int.emod_eq_of_lt h2a h2b] at this
+      exact this
+  · intro hx1
+    have hi0 : i = 0 := by
+      by_contra h
+      have : 2 ≤ 2 ^ i := by
+        calc 2 = 2 ^ 1 := by norm_num
+          _ ≤ 2 ^ i := Nat.pow_le_pow_right (by norm_num) (by omega)
+      omega
+    subst hi0
+    have hcm : c = 2 ^ m := by rw [hcdef]; simp
+    rw [hcm]
+    have hlt : k / 2 ^ m < 2 := by
+      apply Nat.div_lt_of_lt_mul
+      rw [pow_succ] at hk; linarith
+    rw [Nat.mod_eq_of_lt hlt]
+    have := Nat.mod_add_div k (2 ^ m)
+    simp only [pow_zero, mul_one]
+    linarith [this, Nat.mul_comm (k / 2 ^ m) (2 ^ m)]
+  · intro hx1
+    have hi1 : 1 ≤ i := by
+      by_contra h
+      have : i = 0 := by omega
+      subst this
+      simp at hx1
+    obtain ⟨l, rfl⟩ : ∃ l, i = l + 1 := ⟨i - 1, by omega⟩
+    have hhalf : 2 ^ (l + 1) / 2 = 2 ^ l := by
+      rw [pow_succ]; simp
+    have hl : l ≤ m := by omega
+    refine ⟨by rw [pow_succ]; simp, ?_, ?_⟩
+    · rw [hhalf]
+      exact Nat.mod_eq_zero_of_dvd (pow_dvd_pow 2 hl)
+    · rw [hhalf, Nat.pow_div hl (by norm_num)]
+      have h2c : 2 ^ (m - l) = c * 2 := by
+        rw [hcdef, ← pow_succ]; congr 1; omega
+      rw [h2c, Nat.mod_mul]
+      have e2m : 2 ^ m = c * 2 * 2 ^ l := by
+        rw [← hcx, pow_succ]; ring
+      rw [e2m]
+      have : k % c * 2 ^ (l + 1) + k / c % 2 * (c * 2 * 2 ^ l) = 2 * ((k % c + c * (k / c % 2)) * 2 ^ l) := by
+        rw [pow_succ]; ring
+      rw [this]
+      simp
+
+/-- `x & (p-1) = x mod p` for a power of two p (a divisor of 2^64) -/
+theorem and_mask_dvd (x p : ℕ) (hp : 0 < p) (h : 2 ^ 64 % p = 0) : x &&& (p - 1) = x % p := by
+  obtain ⟨i, _, rfl⟩ := (Nat.dvd_prime_pow Nat.prime_two).1 (Nat.dvd_of_mod_eq_zero h)
+  exact Nat.and_two_pow_sub_one_eq_mod x i
+
+/-- `a | p = a + p` for a power of two p above a -/
+theorem or_add_pow2 (a p : ℕ) (h : 2 ^ 64 % p = 0) (ha : a < p) : a ||| p = a + p := by
+  obtain ⟨i, _, rfl⟩ := (Nat.dvd_prime_pow Nat.prime_two).1 (Nat.dvd_of_mod_eq_zero h)
+  have := Nat.two_pow_add_eq_or_of_lt ha 1
+  simp only [mul_one] at this
+  rw [Nat.add_comm a, this]
+  exact Nat.or_comm _ _
+
+/-- a congruence modulo W holds modulo every divisor of W -/
+theorem cong_dvd (a b W p : ℤ) (h : a ≡ b [ZMOD W]) (hp : W % p = 0) : a ≡ b [ZMOD p] :=
+  Int.ModEq.of_dvd (Int.dvd_of_emod_eq_zero hp) h
+
+/-- the order of 5 modulo 2^(m+3) is 2^(m+1) -/
+theorem five_pow_eq_one (m d : ℕ) (h : (5 : ℤ) ^ d ≡ 1 [ZMOD 2 ^ (m + 3)]) : 2 ^ (m + 1) ∣ d := by
+  induction m with
+  | zero =>
+    have := (five_pow_mul_two_pow_eq_one 0 d).mp (by simpa using h)
+    simpa using Nat.dvd_of_mod_eq_zero this
+  | succ m ih =>
+    have hlow : (5 : ℤ) ^ d ≡ 1 [ZMOD 2 ^ (m + 3)] :=
+      Int.ModEq.of_dvd (pow_dvd_pow 2 (by omega)) h
+    obtain ⟨j, rfl⟩ := ih hlow
+    have := (five_pow_mul_two_pow_eq_one (m + 1) j).mp (by rw [mul_comm]; exact h)
+    obtain ⟨v, rfl⟩ : ∃ v, j = 2 * v := ⟨j / 2, by omega⟩
+    exact ⟨v, by rw [pow_succ 2 (m + 1)]; ring⟩
+
+/-- 5^a ≡ 5^b (mod 2^(m+3)) with both exponents below 2^(m+1) forces a = b: the logarithm that
+`SolveDiscreteLogGaloisElement` returns is the only one in [0, NthRoot/4) -/
+theorem dlog_unique (m a b : ℕ) (ha : a < 2 ^ (m + 1)) (hb : b < 2 ^ (m + 1))
+    (h : (5 : ℤ) ^ a ≡ 5 ^ b [ZMOD 2 ^ (m + 3)]) : a = b := by
+  wlog hab : a ≤ b with H
+  · exact (H m b a hb ha h.symm (by omega)).symm
+  have e : (5 : ℤ) ^ b = 5 ^ a * 5 ^ (b - a) := by
+    rw [← pow_add]; congr 1; omega
+  rw [e] at h
+  have h1 := (five_pow_cancel m a _).mp h
+  obtain ⟨t, ht⟩ := five_pow_eq_one m (b - a) h1
+  rcases t with _ | t
+  · omega
+  · have : 2 ^ (m + 1) ≤ b - a := by
+      rw [ht]; exact Nat.le_mul_of_pos_right _ (by omega)
+    omega
+
+/-- `dlog_step` with the new bit split into its two cases (the form used in the verification conditions) -/
+theorem dlog_step_cases (m k x : ℕ) (g r1 r2 : ℤ) (hx0 : 0 < x) (hdiv : 2 ^ m % x = 0)
+    (hk : k < 2 ^ (m + 1)) (hg : g ≡ 5 ^ k [ZMOD 2 ^ (m + 3)])
+    (h1 : r1 ≡ 5 ^ ((k % (2 ^ m / x)) * x) [ZMOD 2 ^ (m + 3)]) (h1a : 0 ≤ r1) (h1b : r1 < 2 ^ (m + 3))
+    (h2 : r2 ≡ g ^ x [ZMOD 2 ^ (m + 3)]) (h2a : 0 ≤ r2) (h2b : r2 < 2 ^ (m + 3)) :
+    (k % (2 ^ m / x)) * x < 2 ^ m ∧
+    (r1 = r2 ↔ (k / (2 ^ m / x)) % 2 = 0) ∧
+    (x = 1 → ((k / (2 ^ m / x)) % 2 = 0 → (k % (2 ^ m / x)) * x = k) ∧
+             ((k / (2 ^ m / x)) % 2 = 1 → (k % (2 ^ m / x)) * x + 2 ^ m = k)) ∧
+    (1 < x → x % 2 = 0 ∧ 2 ^ m % (x / 2) = 0 ∧
+      ((k / (2 ^ m / x)) % 2 = 0 → ((k % (2 ^ m / x)) * x) / 2 = (k % (2 ^ m / (x / 2))) * (x / 2)) ∧
+      ((k / (2 ^ m / x)) % 2 = 1 → ((k % (2 ^ m / x)) * x + 2 ^ m) / 2 = (k % (2 ^ m / (x / 2))) * (x / 2))) := by
+  obtain ⟨a1, a2, a3, a4⟩ := dlog_step m k x g r1 r2 hx0 hdiv hk hg h1 h1a h1b h2 h2a h2b
+  refine ⟨a1, a2, fun hx => ⟨fun hb => ?_, fun hb => ?_⟩, fun hx => ?_⟩
+  · have := a3 hx; rw [hb] at this; simpa using this
+  · have := a3 hx; rw [hb] at this; simpa using this
+  · obtain ⟨b1, b2, b3⟩ := a4 hx
+    refine ⟨b1, b2, fun hb => ?_, fun hb => ?_⟩
+    · rw [hb] at b3; simpa using b3
+    · rw [hb] at b3; simpa using b3
+
+/-! ### Remainders with a symbolic modulus (`MultByMonomial`, property C01) -/
+
+/-- Go's remainder `k % M` (truncated, sign of k), as the verification conditions encode it, against the
+mathematical residue: `((k %go M) + M) mod M = k mod M`, and the remainder lies in (-M, M) -/
+theorem tmod_shift (k M r : ℤ) (hM : 0 < M)
+    (hr : r = if 0 ≤ k then (if 0 ≤ k then k else -k) % M else -((if 0 ≤ k then k else -k) % M)) :
+    -M < r ∧ r < M ∧ (r + M) % M = k % M ∧ 0 ≤ k % M ∧ k % M < M := by
+  have hne : M ≠ 0 := by omega
+  refine ⟨?_, ?_, ?_, Int.emod_nonneg k hne, Int.emod_lt_of_pos k hM⟩
+  · rw [hr]
+    split_ifs with h
+    · have := Int.emod_nonneg k hne; omega
+    · have := Int.emod_lt_of_pos (-k) hM; omega
+  · rw [hr]
+    split_ifs with h
+    · exact Int.emod_lt_of_pos k hM
+    · have := Int.emod_nonneg (-k) hne; omega
+  · have key : r ≡ k [ZMOD M] := by
+      rw [hr]
+      split_ifs with h
+      · exact Int.mod_modEq k M
+      · have := (Int.mod_modEq (-k) M).neg
+        simpa using this
+    have : r + M ≡ k [ZMOD M] := by
+      have h2 : r + M ≡ r [ZMOD M] := by simp [Int.ModEq]
+      exact h2.trans key
+    exact this
+
+/-- the residue of a value in [0, 2M) -/
+theorem mod_range (a M : ℤ) (_hM : 0 < M) :
+    (0 ≤ a ∧ a < M → a % M = a) ∧ (M ≤ a ∧ a < 2 * M → a % M = a - M) := by
+  constructor
+  · rintro ⟨h0, h1⟩
+    exact Int.emod_eq_of_lt h0 h1
+  · rintro ⟨h0, h1⟩
+    have : a % M = (a - M) % M := by
+      rw [Int.sub_emod_right]
+    rw [this]
+    exact Int.emod_eq_of_lt (by omega) (by omega)
